@@ -91,6 +91,11 @@ def cases(tier, seed):
             for pat in _patterns(n, tier) if n <= 3 else [0, 2 ** (n * (n - 1) // 2) - 1, 0b010101]:
                 for jl in b["jump_lists"]:
                     yield {"op": "L", "N": n, "omega": om, "phase": ph, "pattern": pat, "jumps": jl, "seed": seed}
+    # the whole problem at a tiny scale (all drive values and couplings x 1e-9): the maps are linear, an absolute threshold anywhere shows
+    for kind in ("H", "L"):
+        for n in (2, 3):
+            for pat in (2 ** (n * (n - 1) // 2) - 1, 1):
+                yield {"op": kind, "N": n, "omega": "distinct", "phase": "all_nonzero", "pattern": pat, "seed": seed, "tiny": 1e-9, **({"jumps": "none"} if kind == "L" else {})}
     # histories: operators built one after the other from the SAME tensor objects, which the caller changes in place in between
     for kind in ("H", "L"):
         for n in (2, 3):
@@ -216,6 +221,8 @@ def run_case(case):
 
     n = case["N"]
     om, de, ph, U = _params(case)
+    if case.get("tiny"):
+        om, de, U = [x * case["tiny"] for x in om], [x * case["tiny"] for x in de], U * case["tiny"]
     Href = dense_hamiltonian(om, de, ph, U)
     d = 2**n
     dev = torch.device("cpu")
@@ -224,7 +231,7 @@ def run_case(case):
         H = RydbergHamiltonian(omegas=_t(om), deltas=_t(de), phis=_t(ph), interaction_matrix=_t(U, torch.float64), device=dev)
         r = np.random.RandomState(case["seed"] + n)
         vecs = [np.eye(d, dtype=complex)[k] for k in range(d)] + [r.normal(size=d) + 1j * r.normal(size=d)]
-        scale = max(1.0, np.abs(Href).max())
+        scale = max(1.0, np.abs(Href).max()) if not case.get("tiny") else np.abs(Href).max()
         for k, v in enumerate(vecs):
             got = (H * _t(v)).numpy()
             err = np.abs(got - Href @ v).max() / scale
@@ -271,7 +278,7 @@ def run_case(case):
     r = np.random.RandomState(case["seed"] + 7 * n)
     g = r.normal(size=(d, d)) + 1j * r.normal(size=(d, d))
     basis.append(g + g.conj().T)
-    scale = max(1.0, np.abs(Href).max(), max([np.abs(c).max() ** 2 for c in emb] or [0]))
+    scale = max(1.0, np.abs(Href).max(), max([np.abs(c).max() ** 2 for c in emb] or [0])) if not case.get("tiny") else np.abs(Href).max()
     for k, rho in enumerate(basis):
         got_cpu = (L @ _t(rho)).numpy()
         ref = gen(rho)
